@@ -522,8 +522,7 @@ fn run_parallel(cases: &[(String, String)], jobs: usize) {
 fn main() {
     quiet_panics();
     let a = parse_args();
-    let root = PathBuf::from(format!("/tmp/ergverif-c29-{}", std::process::id()));
-    std::fs::create_dir_all(&root).unwrap();
+    let root = scratch_dir("c29");
     std::env::set_current_dir(&root).unwrap();
     let jobs: usize = std::env::var("VERIF_JOBS").ok().and_then(|s| s.parse().ok()).unwrap_or(6);
     match a.mode.as_str() {
